@@ -36,6 +36,7 @@ type c22Stage struct {
 type c22DispCfg struct {
 	stages  []c22Stage
 	scripts [][]string // per entry, per stage
+	start   []int      // per entry: attempts the row already has when the dispatcher starts (a long outage, fast-forwarded)
 }
 
 // wait: how long after the last expected publish a stage is given before it is judged quiet. The lease
@@ -138,8 +139,8 @@ func (r *c22DRepo) DeadLetter(ctx context.Context, tx *sql.Tx, outboxID string, 
 
 // c22Need: how many Publish calls the scripts lead to under the documented behaviour, and whether
 // the entry is settled by then.
-func c22Need(stages []c22Stage, scripts []string) int {
-	a, n := 0, 0
+func c22Need(stages []c22Stage, scripts []string, a0 int) int {
+	a, n := a0, 0
 	for si, sc := range scripts {
 		s := sc
 		if si == len(scripts)-1 {
@@ -217,8 +218,39 @@ func c22DispCase(out *verifx.Out, e *c22Env, k int, dc c22DispCfg) {
 			verifx.Check(mw.PutBucketNotificationConfiguration(ctx, b, &storage.BucketNotificationConfiguration{QueueConfigurations: []storage.NotificationConfigurationRule{{
 				DestinationType: storage.NotificationDestinationQueue, DestinationARN: c22DestPool[0], Events: []string{"s3:ObjectCreated:*"}}}}))
 		}
+		if si == 0 && dc.start != nil {
+			// the entries exist before the dispatcher starts; their attempt counters are set as a long outage
+			// would have left them (the dispatcher only ever compares and increments the counter)
+			for _, kk := range keys {
+				_, err := mw.PutObject(ctx, b, storage.MustNewObjectKey(kk), nil, bytes.NewReader([]byte(kk)), nil, nil)
+				verifx.Check(err)
+			}
+			verifx.Check(database.WithTx(ctx, e.st.DB, &sql.TxOptions{ReadOnly: false}, func(ctx context.Context, tx database.Tx) error {
+				rs, err := tx.SqlTx().QueryContext(ctx, "SELECT id, payload FROM notification_outbox_entries WHERE outbox_id = $1", outbox)
+				if err != nil {
+					return err
+				}
+				ids := map[string]string{}
+				for rs.Next() {
+					var id string
+					var p []byte
+					if err := rs.Scan(&id, &p); err != nil {
+						rs.Close()
+						return err
+					}
+					ids[c22KeyOfPayload(p)] = id
+				}
+				rs.Close()
+				for i, kk := range keys {
+					if _, err := tx.SqlTx().ExecContext(ctx, "UPDATE notification_outbox_entries SET attempts = $1 WHERE id = $2", dc.start[i], ids[kk]); err != nil {
+						return err
+					}
+				}
+				return nil
+			}))
+		}
 		verifx.Check(mw.Start(ctx))
-		if si == 0 {
+		if si == 0 && dc.start == nil {
 			for _, kk := range keys {
 				_, err := mw.PutObject(ctx, b, storage.MustNewObjectKey(kk), nil, bytes.NewReader([]byte(kk)), nil, nil)
 				verifx.Check(err)
@@ -229,7 +261,11 @@ func c22DispCase(out *verifx.Out, e *c22Env, k int, dc c22DispCfg) {
 		want := make([]int, len(keys))
 		for i := range keys {
 			if last {
-				want[i] = c22Need(dc.stages, dc.scripts[i])
+				a0 := 0
+				if dc.start != nil {
+					a0 = dc.start[i]
+				}
+				want[i] = c22Need(dc.stages, dc.scripts[i], a0)
 			} else {
 				for s := 0; s <= si; s++ {
 					want[i] += len(dc.scripts[i][s])
@@ -277,6 +313,9 @@ func c22DispCase(out *verifx.Out, e *c22Env, k int, dc c22DispCfg) {
 			toks += " " + s
 		}
 		out.Line("entry %d%s", i, toks)
+		if dc.start != nil {
+			out.Line("start %d %d", i, dc.start[i])
+		}
 		calls := pub.calls[kk]
 		rels := pub.rel[pub.idOf[kk]]
 		nrel := 0
@@ -287,11 +326,7 @@ func c22DispCase(out *verifx.Out, e *c22Env, k int, dc c22DispCfg) {
 			// was scheduled for minus the instant this Publish returned (never less than the delay)
 			lo, hi := c22None, c22None
 			if c.outcome == '0' && nrel < len(rels) {
-				d := (rels[nrel] + time.Millisecond - 1).Milliseconds()
-				if d < 0 {
-					d = 0
-				}
-				lo = fmt.Sprint(d)
+				lo = fmt.Sprint((rels[nrel] + time.Millisecond - 1).Milliseconds())
 				nrel++
 				if j+1 < len(calls) {
 					hi = fmt.Sprint(calls[j+1].nextAt.Sub(c.ret).Milliseconds())
@@ -401,7 +436,7 @@ func runC22(args []string) {
 		return c22Hist{cfg: [2]*storage.BucketNotificationConfiguration{cfg0, cfg1}, versioned: [2]bool{v0, v1}, ops: ops}
 	}
 	everyKind := []c22Op{{"put", 0, "img/a.jpg", "none"}, {"put", 0, "doc/a.txt", "none"}, {"copy", 0, "img/b.png", "none"}, {"complete", 0, "img/a.jpg", "none"}, {"tagput", 0, "img/a.jpg", "none"},
-		{"tagdel", 0, "img/a.jpg", "none"}, {"delobjs", 0, "doc/a.txt", "none"}, {"delete", 0, "img/a.jpg", "none"}, {"put", 1, "img/a.jpg", "none"}, {"delete", 1, "img/a.jpg", "none"}}
+		{"tagdel", 0, "img/a.jpg", "none"}, {"delobjs", 0, "doc/a.txt", "none"}, {"delobjsmixed", 0, "doc/b.txt", "none"}, {"delete", 0, "img/a.jpg", "none"}, {"put", 1, "img/a.jpg", "none"}, {"delete", 1, "img/a.jpg", "none"}}
 	run(1, func(r *verifx.Rng) { c22HistCase(out, e, k, r, hist(cfgA, cfgB, false, false, everyKind)) })
 	run(2, func(r *verifx.Rng) {
 		c22HistCase(out, e, k, r, hist(cfgA, cfgB, true, true, append(append([]c22Op{}, everyKind...), c22Op{"deleteversion", 0, "img/b.png", "none"})))
@@ -410,7 +445,7 @@ func runC22(args []string) {
 		c22HistCase(out, e, k, r, hist(cfgA, cfgB, false, false, []c22Op{{"put", 0, "img/a.jpg", "insert:0"}, {"put", 0, "img/a.jpg", "insert:1"}, {"put", 0, "img/a.jpg", "insert:2"}, {"put", 0, "img/a.jpg", "commit"},
 			{"putpartfault", 0, "img/a.jpg", "mutation"}, {"putprecond", 0, "img/b.png", "mutation"}, {"put", 0, "img/a.jpg", "none"}, {"delete", 0, "img/a.jpg", "insert:0"}, {"delete", 0, "img/a.jpg", "commit"},
 			{"tagput", 0, "img/a.jpg", "insert:0"}, {"copy", 0, "img/b.png", "commit"}, {"complete", 0, "doc/a.txt", "insert:0"}, {"delobjs", 0, "img/a.jpg", "insert:1"}, {"copymissing", 0, "a.jpg", "mutation"},
-			{"tagputmissing", 0, "a.jpg", "mutation"}, {"copyx", 1, "img/a.jpg", "insert:0"}, {"copyx", 0, "img/a.jpg", "commit"}}))
+			{"tagputmissing", 0, "a.jpg", "mutation"}, {"copyx", 1, "img/a.jpg", "insert:0"}, {"copyx", 0, "img/a.jpg", "commit"}, {"delobjsmixed", 0, "img/a.jpg", "insert:0"}, {"delobjsmixed", 0, "img/a.jpg", "none"}}))
 	})
 	run(4, func(r *verifx.Rng) {
 		c22HistCase(out, e, k, r, hist(cfgA, cfgB, false, false, []c22Op{{"appendnew", 0, "img/a.jpg", "none"}, {"append", 0, "img/a.jpg", "none"}, {"put", 0, "img/a.jpg", "none"}}))
@@ -455,6 +490,16 @@ func runC22(args []string) {
 		dc := c22DispCfg{stages: []c22Stage{{max: 0, conc: 4, batch: 8, min: 250 * ms, maxb: 250 * ms, lease: time.Minute}, {max: 2, conc: 1, batch: 1, min: 30 * ms, maxb: 60 * ms, lease: 250 * ms}}}
 		for _, s2 := range []string{"", "0", "00", "1", "01", "L0", "L1", "K", "0L", "000"} {
 			dc.scripts = append(dc.scripts, []string{"000", s2})
+		}
+		c22DispCase(out, e, k, dc)
+	})
+	// 13: a long outage, fast-forwarded: rows that already have 30 … 1100 attempts (MinBackoff·2^(n−1) passes 2^63 ns
+	// at n = 40 and +Inf at n ≈ 1050) fail twice more under an unlimited dispatcher — the delay must stay MaxBackoff
+	run(uint64(121), func(r *verifx.Rng) {
+		dc := c22DispCfg{stages: []c22Stage{{max: 0, conc: 2, batch: 4, min: 25 * ms, maxb: 40 * ms, lease: time.Minute}}}
+		for _, a0 := range []int{0, 1, 5, 30, 33, 34, 35, 36, 38, 39, 40, 41, 62, 63, 64, 65, 100, 300, 700, 1022, 1023, 1024, 1025, 1048, 1049, 1050, 1100} {
+			dc.scripts = append(dc.scripts, []string{"00"})
+			dc.start = append(dc.start, a0)
 		}
 		c22DispCase(out, e, k, dc)
 	})
